@@ -57,6 +57,16 @@ theorem C02_exc_args (c : Case) (hwf : wf c = true) (hk : known c = []) :
       else none) :=
   (runInit_spec c (bodyOK c hwf hk)).2.2.2.2.2
 
+theorem mem_pipeEvents (n : String) (ms : List Conv) :
+    ∀ (i : Nat) (v : Val) (e : Event), e ∈ pipeEvents n i ms v → e.id.field = n ∧ e.id.kind = "conv" := by
+  induction ms with
+  | nil => intro i v e he; cases he
+  | cons c cs ih =>
+    intro i v e he
+    rcases List.mem_cons.1 he with h | h
+    · rw [h]; exact ⟨rfl, rfl⟩
+    · exact ih _ _ e h
+
 /-- every event of a per-field block carries that field's name and is a factory or converter call -/
 theorem C02_attr_events_named (attrs : List Attr) (c : Call) (a : Attr) :
     ∀ e ∈ attrEvents attrs c a, e.id.field = a.name ∧ (e.id.kind = "factory" ∨ e.id.kind = "conv") := by
@@ -67,9 +77,13 @@ theorem C02_attr_events_named (attrs : List Attr) (c : Call) (a : Attr) :
   · split at h
     · simp only [List.mem_singleton] at h; simp [h, ev]
     · cases h
-  · split at h
-    · simp only [List.mem_singleton] at h; simp [h, ev]
+  · unfold convEventsOf at h
+    split at h
     · cases h
+    · split at h
+      · simp only [List.mem_singleton] at h; simp [h]
+      · have := mem_pipeEvents a.name _ 0 _ e h
+        simp [this.1, this.2]
 
 theorem cutAt_subset (f : Option EventId) (es : List Event) : ∀ e ∈ cutAt f es, e ∈ es := by
   induction es with
@@ -123,5 +137,66 @@ theorem C02_model_meets_spec (c : Case) (hwf : wf c = true) (hk : known c = []) 
   obtain ⟨_, _, h3, h4, h5, h6⟩ := runInit_spec c (bodyOK c hwf hk)
   unfold spec model
   simp only [h3, h4, h5, h6, specValues, beq_self_eq_true, Bool.and_self]
+
+/-! ### converter chains (`converter=[c0, c1, …]`, `converters.pipe`) -/
+
+/-- **C02_pipe_left_to_right**: the value a chain produces is the LAST member applied to what the members before
+    it produced -- the left-to-right composition, whatever mixture of plain callables and `Converter`s. -/
+theorem C02_pipe_left_to_right (n : String) (ms : List Conv) (c : Conv) : ∀ (i : Nat) (v : Val),
+    pipeVal n i (ms ++ [c]) v = convValAt n (i + ms.length) c (pipeVal n i ms v) := by
+  induction ms with
+  | nil => intro i v; simp [pipeVal]
+  | cons m ms ih =>
+    intro i v
+    simp only [List.cons_append, pipeVal, ih, List.length_cons]
+    congr 1; omega
+
+/-- **C02_pipe_events**: every member is called once, after the members before it, with what THEY produced, and
+    with instance / field as it -- not its neighbours, not the chain -- asked for. -/
+theorem C02_pipe_events (n : String) (ms : List Conv) (c : Conv) : ∀ (i : Nat) (v : Val),
+    pipeEvents n i (ms ++ [c]) v = pipeEvents n i ms v ++
+      [{ id := { kind := "conv", field := n, idx := i + ms.length }, args := convEventArgsN n c (pipeVal n i ms v) }] := by
+  induction ms with
+  | nil => intro i v; simp [pipeEvents, pipeVal]
+  | cons m ms ih =>
+    intro i v
+    have : i + 1 + ms.length = i + (ms.length + 1) := by omega
+    simp only [List.cons_append, pipeEvents, pipeVal, ih, List.length_cons, this]
+
+/-- `x = attr.ib(converter=[Converter(f, takes_self=True), b, c])`, constructed as `C("t1")` -/
+def pipeCase : Case :=
+  { run := { cfg := { frozen := false, slots := false, cacheHash := false, isExc := false, pre := .none,
+                      post := false, clsHook := false, runValidators := true, collectByMro := true },
+             attrs := [{ name := "x", alias := "x", dflt := .none, init := true, kwOnly := false,
+                         conv := some { takesSelf := true, takesField := true },
+                         validators := 1, onSet := .unset, isSlot := false, type := none, convType := none,
+                         pipe := some [{ takesSelf := true, takesField := false }, { takesSelf := false, takesField := false },
+                                       { takesSelf := false, takesField := false }] }],
+             own := ["x"], bases := [], cacheIsSlot := false, fault := none },
+    call := { pos := ["t1"], kw := [] }, isDefine := false, clsOnSet := .unset }
+
+/-- non-vacuity, and what the model does on `pipeCase`: `f(t1, self)`, then `b`, then `c`, then the validator on
+    the composed value. -/
+example : wf pipeCase = true ∧ known pipeCase = [] ∧
+    (model pipeCase).trace = [ev "conv" "x" 0 ["t1", "self"], ev "conv" "x" 1 ["conv.x(t1,self)"],
+      ev "conv" "x" 2 ["conv1.x(conv.x(t1,self))"],
+      ev "validator" "x" 0 ["self", "attr.x", "conv2.x(conv1.x(conv.x(t1,self)))"]] := by
+  refine ⟨by decide, by decide, by decide⟩
+
+/-- **C02_spec_rejects_skipped_member**: a chain in which the middle member is replaced by the last one (`f, c, c`
+    instead of `f, b, c`) violates the specification. -/
+theorem C02_spec_rejects_skipped_member :
+    spec pipeCase { model pipeCase with
+      trace := [ev "conv" "x" 0 ["t1", "self"], ev "conv" "x" 2 ["conv.x(t1,self)"],
+        ev "conv" "x" 2 ["conv2.x(conv.x(t1,self))"],
+        ev "validator" "x" 0 ["self", "attr.x", "conv2.x(conv2.x(conv.x(t1,self)))"]],
+      values := [("x", some "conv2.x(conv2.x(conv.x(t1,self)))")] } = false := by decide
+
+/-- a fault in the middle member: the members before it ran, it ran, nothing after it, nothing stored -/
+example : (model { pipeCase with run := { pipeCase.run with fault := some { kind := "conv", field := "x", idx := 1 } } }).trace
+      = [ev "conv" "x" 0 ["t1", "self"], ev "conv" "x" 1 ["conv.x(t1,self)"]] ∧
+    (model { pipeCase with run := { pipeCase.run with fault := some { kind := "conv", field := "x", idx := 1 } } }).values
+      = [("x", none)] := by
+  refine ⟨by decide, by decide⟩
 
 end Attrs.C02
